@@ -2,6 +2,7 @@ package props
 
 import (
 	"fmt"
+	"github.com/atlassian/escalator/pkg/controller"
 	"reflect"
 	"sort"
 	"testing"
@@ -91,6 +92,11 @@ func (PreciseWrites) AfterScan(ctx *h.ScanCtx) []h.Violation {
 	var out []h.Violation
 	for _, e := range ctx.Entries {
 		if e.Op != sim.OpK8sUpdate {
+			continue
+		}
+		if e.Err == "conflict" {
+			// written from a read that another client has since overtaken; the API refused it and nothing changed
+			ctx.H.Cov["c15.updates-refused-as-conflict"]++
 			continue
 		}
 		var eff v1.TaintEffect
@@ -186,6 +192,9 @@ func C15Scenarios(tier string) []*h.Scenario {
 			var ev []h.Event
 			for i, n := range groupNodes(hh, g, 4) {
 				ev = append(ev, evExtTaint(n.Name, "now-1q"), evExtUntaint(n.Name))
+				if i < 2 || i == 2 {
+					ev = append(ev, evConcurrentWrite(n.Name))
+				}
 				if i >= 2 {
 					// an escalator taint put on by hand with a value that is not a time: never rewritten
 					ev = append(ev, evExtTaint(n.Name, "abc"))
@@ -201,6 +210,10 @@ func C15Scenarios(tier string) []*h.Scenario {
 	for _, order := range [][2]v1.TaintEffect{{v1.TaintEffectNoExecute, ""}, {"", v1.TaintEffectNoExecute}, {v1.TaintEffectPreferNoSchedule, v1.TaintEffectNoExecute}} {
 		for _, dryFirst := range []bool{false, true} {
 			g1, g2 := StdGroup("g1"), StdGroup("g2")
+			if order[1] == v1.TaintEffectNoExecute {
+				// the special group named default honours its configured effect like any other
+				g2 = StdGroup(controller.DefaultNodeGroup)
+			}
 			g1.Opts.TaintEffect, g2.Opts.TaintEffect = order[0], order[1]
 			g1.Opts.MinNodes, g2.Opts.MinNodes = 0, 0
 			g1.Opts.DryMode = dryFirst
@@ -350,6 +363,6 @@ func init() {
 		Prune:       true,
 		Nontrivial:  seenKeys,
 		Assumptions: commonAssumptions,
-		Alphabet:    []string{"grid over node shapes", "ext-taint(i, now-1q | abc)", "ext-untaint(i)", "stale-view", "burst", "clear-pods", "restart", "skip-settle", "fail at DescribeAutoScalingGroups (5 s retry sleep before the scan)"},
+		Alphabet:    []string{"grid over node shapes", "ext-taint(i, now-1q | abc)", "ext-untaint(i)", "another-client-writes-between-get-and-update(i)", "stale-view", "burst", "clear-pods", "restart", "skip-settle", "fail at DescribeAutoScalingGroups (5 s retry sleep before the scan)"},
 	})
 }
